@@ -253,7 +253,7 @@ class CallNodeSerializer(Serializer):
             for arg in call_node.arguments
         }
 
-        return {
+        spec = {
             "_version": VERSION,
             "_type": "CallNode",
             "call_hash": call_node.call_hash,
@@ -266,10 +266,18 @@ class CallNodeSerializer(Serializer):
             "children": [edge.child_id for edge in call_node.child_edges],
         }
 
+        # The tasks used in the subtree are needed by check_valid="shallow" caching to react to
+        # code changes. The key is optional to stay compatible with existing records.
+        subtree_tasks = sorted(row.task_hash for row in call_node.task_set)
+        if subtree_tasks:
+            spec["subtree_tasks"] = subtree_tasks
+        return spec
+
     def serialize_query(self, query: Query) -> Iterator[dict]:
         query = query.options(
             selectinload(db.CallNode.arguments).joinedload(db.Argument.arg_results),
             selectinload(db.CallNode.child_edges),
+            selectinload(db.CallNode.task_set),
         )
         for row in query.all():
             yield self.serialize(row)
@@ -314,6 +322,11 @@ class CallNodeSerializer(Serializer):
                 )
                 for key, arg in spec["args"].items()
                 for upstream in arg["upstream"]
+            ]
+            + [
+                # Records written by older versions do not carry their subtree tasks.
+                db.CallSubtreeTask(call_hash=spec["call_hash"], task_hash=task_hash)
+                for task_hash in spec.get("subtree_tasks", [])
             ]
         )
 
